@@ -17,7 +17,9 @@ TIMEOUT = {"quick": 240, "thorough": 1800}
 RULE = ("histories = sequences of 10-300 requests mixing 1.0 and 2.0 calls, notifications, batches, invalid and failing "
         "requests, replayed (a) sequentially on one dispatcher, (b) from 2-8 threads on one dispatcher, (c) through "
         "Simple / Pooled HTTP servers with concurrent raw clients, all jsonrpclib modules under line-level yield "
-        "injection; server version {1.0,2.0}, server Config = own object or the shared DEFAULT; plus every single and "
+        "injection, (d) first-use races: 3-6 requests sent from three threads to a FRESH dispatcher while one thread is "
+        "parked at one source line - every line the dispatching threads were seen executing, in turn; "
+        "server version {1.0,2.0}, server Config = own object or the shared DEFAULT; plus every single and "
         "pairwise mutation of a Config copy and of its original. Oracles: each reply equals, byte for byte, the reply a "
         "fresh identical server gives to that request in isolation; the version form matches the request; a class-level "
         "write trap on Config sees every attribute write (also transient ones); field snapshots before/after. "
@@ -309,6 +311,35 @@ def run(ctx):
         ctx.count("histories")
         if i == 0:
             ctx.sample({"config": list(cfg), "replay": mode, "first_requests": bodies[:4]})
+    # first-use races: a FRESH dispatcher receives its first requests from three threads at once while one of them is
+    # parked at one source line (every line the dispatching threads were seen executing above, in turn)
+    pts = sorted(set((q, l) for (q, l, r) in inj.seen if r == "client"))
+    ctx.counters["first-use-stall-points-enumerated"] = len(pts)
+    mine = [pt for i, pt in enumerate(pts) if ctx.mine(i)]
+    rng.shuffle(mine)
+    for q, l in mine:
+        if ctx.time_left() < 10:
+            ctx.unsure("time budget exhausted in the first-use sweep")
+            break
+        for rep in range(ctx.pick(3, 8)):
+            cfg = CFGS[rep % len(CFGS)] if rep > 1 else (2.0, "own")
+            # half of them plain 1.0-form calls (whose answers need the version adaptation), the rest anything
+            bodies = [gen_body(rng) if rng.random() < 0.5 else
+                      json.dumps({"method": rng.choice(["echo", "const0", "fail", "nosuch", "two"]),
+                                  "params": [rng.randrange(100)], "id": rng.randrange(1, 1000)})
+                      for _ in range(rng.choice([3, 6]))]
+            inj.configure("none")
+            for b in bodies:
+                fresh.reply(cfg, b)
+            plan = {"qualname": q, "line": l, "role": "client", "k": 1 if rep == 0 else rng.choice([1, 2]),
+                    "budget": rng.choice([40, 150, 400]), "cap": 0.03}
+            hits0 = inj.hits
+            inj.configure("stall", seed=rng.randrange(1 << 30), plan=plan)
+            run_history(ctx, rng, trap, fresh, cfg, "threads-3", bodies)
+            inj.configure("none")
+            ctx.count("first-use-histories")
+            if inj.hits > hits0:
+                ctx.count("first-use-stall-points-hit")
     ctx.counters["monitored-lines-executed"] = inj.snapshot()["lines"]
     inj.uninstall()
     trap.uninstall()
@@ -319,7 +350,8 @@ def finalize(m, tier):
     out = []
     for k, lo in (("judged:fresh-server-comparison", 2000), ("judged:version-form", 1000), ("histories", 40),
                   ("monitor:config-snapshots", 40), ("judged:copy-independence", 100), ("replay:sequential", 100),
-                  ("replay:threads-4", 100), ("replay:http-pooled", 50), ("replay:http-simple", 50)):
+                  ("replay:threads-4", 100), ("replay:http-pooled", 50), ("replay:http-simple", 50),
+                  ("first-use-stall-points-hit", 150)):
         if c.get(k, 0) < lo:
             out.append("monitor counter %s too low (%d < %d)" % (k, c.get(k, 0), lo))
     return out
